@@ -1,4 +1,4 @@
 SPECIFICATION Spec
-CONSTANT MaxBytes = 2
+CONSTANT MaxBytes = 1
 INVARIANT NeverEndedOrderlyBothData
 CHECK_DEADLOCK FALSE
